@@ -171,9 +171,12 @@ func (p *vfPresWorld) apply(op vfPresOp) {
 		p.connect(op.Sess)
 		delete(p.attachMark, op.Sess)
 	case "mute":
-		p.mutedHow[u] = "topic-unloaded"
-		if vfTopic(p.p2pName()) != nil {
-			p.mutedHow[u] = "topic-loaded"
+		// how the mute took place is recorded when it takes place: a repeated request changes nothing
+		if p.hasP(u) || p.mutedHow[u] == "" {
+			p.mutedHow[u] = "topic-unloaded"
+			if vfTopic(p.p2pName()) != nil {
+				p.mutedHow[u] = "topic-loaded"
+			}
 		}
 		c.Req(`{"set":{"id":"$ID","topic":"%s","sub":{"mode":"JRWA"}}}`, p.users[peer].id())
 	case "unmute":
@@ -383,9 +386,9 @@ func init() {
 	vfXModels["pres"] = &vfXModel{Name: "pres", NumOps: len(vfPresOps), OpName: func(i int) string { return vfPresOps[i].Name },
 		Exec: vfPresExec, MaxDepth: func(th bool) int {
 			if th {
-				return 6
+				return 7
 			}
-			return 4
+			return 6
 		}}
 }
 
